@@ -170,7 +170,7 @@ def run(F, R, tier):
         n_t += 1
         R.ob("C09-L", "merging %s with %s%s reports %s" % (sk, nk or "*", "" if not has_default else (" (default requested)" if has_default[0] else " (default not requested)"), "nothing new" if want_none else "the newly requested exports"), is_none == want_none,
              "ImportedExports::add(%s <- %s) returns `%s`: %s" % (sk, nk, expr_text(v)[:40], "exports that were never traced are reported as handled, so they are missing from the emitted module" if is_none else "already traced exports are traced again"), where(v))
-    R.floor("C09-L results of ImportedExports::add", n_t, 8)
+    R.floor("C09-L results of ImportedExports::add", n_t, 6)
     # Exports::extend: what is reported as newly requested
     exb = F.body("fast_check::range_finder::Exports::extend")
     EX = "fast_check::range_finder::Exports::"
